@@ -166,6 +166,23 @@ C02_Class2(m) ==
 \cup { L2(mn, <<Xr(a), Xr(b), W(m, 128, "")>>) : mn \in {"vpaddw", "vpmulhrsw", "vpor"}, a \in {0, 15}, b \in {7, 8} }
 \cup { L2(mn, <<G(w, 15), W(m, w, ""), G(w, 0)>>) : mn \in {"bextr", "sarx", "shlx", "shrx"}, w \in {32, 64} }
 \cup { L2("vperm2f128", <<Yr(15), Yr(0), W(m, 256, ""), ImHex(49)>>) }
+\* every memory-taking row of the library's table at least once per width and register class (mnemonic coverage: few shapes)
+MemT == { Mem("", 0, 64, 3, -1, 0, "is", NoD), Mem("", 0, 64, 13, 9, 4, "is", D(FALSE, <<16,0,0,0>>, "hex")), Mem("", 0, 32, 1, 10, 2, "is", D(TRUE, <<0,1,0,0>>, "hex")),
+          Mem("", 0, 64, 4, -1, 0, "is", D(FALSE, <<69,35,1,0>>, "hex")) }
+C02_Table(zz) ==
+     { L2(mn, <<W(m, w, ""), G(w, n)>>) : mn \in Alu \cup {"test", "mov", "xchg"}, w \in {8, 16, 32, 64}, n \in {3, 10}, m \in MemT }
+\cup { L2(mn, <<G(w, n), W(m, w, "")>>) : mn \in Alu \cup {"mov", "xchg"}, w \in {8, 16, 32, 64}, n \in {3, 10}, m \in MemT }
+\cup { L2(mn, <<G(w, n), W(m, w, "")>>) : mn \in Cmovs \cup {"imul"}, w \in {16, 32, 64}, n \in {1, 12}, m \in MemT }
+\cup { L2(mn, <<G(w, n), W(m, w, "")>>) : mn \in {"adcx", "adox"}, w \in {32, 64}, n \in {1, 12}, m \in MemT }
+\cup { L2(mn, <<W(m, 8, kw)>>) : mn \in Setccs, kw \in {"", "byte"}, m \in MemT }
+\cup { L2(mn, <<W(m, w, KW(w)), x>>) : mn \in Shifts, w \in {8, 16, 32, 64}, x \in {ImHex(1), ImHex(7), CL}, m \in MemT }
+\cup { L2(mn, <<MMr(a), W(m, 64, "")>>) : mn \in {x \in Packed16 \cup {"pand"} : "rm" \in LibForms(x)}, a \in {1, 7}, m \in MemT }
+\cup { L2(mn, <<Xr(a), W(m, 128, "")>>) : mn \in {x \in Packed16 \cup {"pand", "pmulld", "pmuldq", "cvtdq2pd", "cvtpd2dq", "divpd", "mulpd", "punpcklqdq"} : "vm" \in LibForms(x)},
+                                          a \in {1, 9}, m \in MemT }
+\cup { L2(mn, <<Xr(a), Xr(b), W(m, 128, "")>>) : mn \in {x \in VexPacked : "vvm" \in LibForms(x)}, a \in {1, 9}, b \in {2, 15}, m \in MemT }
+\cup { L2(mn, <<Yr(a), Yr(b), W(m, 256, "")>>) : mn \in {x \in VexPacked \cup VOnly256 : "yym" \in LibForms(x)}, a \in {1, 9}, b \in {2, 15}, m \in MemT }
+\cup { L2(mn, <<G(w, 1), W(m, w, ""), G(w, 10)>>) : mn \in Bmi, w \in {32, 64}, m \in MemT }
+\cup { L2(mn, <<W(m, w, KW(w))>>) : mn \in {"inc", "dec", "neg", "not", "mul", "div", "idiv", "imul"} \cap Mnemonics, w \in {8, 16, 32, 64}, m \in MemT }
 C02_Cls2(sel(_)) == UNION {C02_Class2(m) : m \in {x \in ShapesRed : sel(x)}}
 C02_Cls(sel(_)) == UNION {C02_Class(m) : m \in {x \in ShapesRed : sel(x)}}
 
@@ -402,6 +419,7 @@ Selected == CASE IOEnv.CORPUS = "C01" -> CorpusC01(0)
               [] IOEnv.CORPUS = "C02e" -> C02_Cls(LAMBDA m : m.a = 64 /\ m.b >= 5 /\ m.b < 12)
               [] IOEnv.CORPUS = "C02f" -> C02_Cls(LAMBDA m : m.a = 64 /\ m.b >= 12)
               [] IOEnv.CORPUS = "C02g" -> C02_Cls(LAMBDA m : m.a = 32)
+              [] IOEnv.CORPUS = "C02k" -> {r \in C02_Table(0) : KindStatus(r.ast.mn, KindStr(r.ast.opds)) = "Supported"}
               [] IOEnv.CORPUS = "C02h" -> C02_Cls2(LAMBDA m : m.a = 64 /\ m.b < 9)
               [] IOEnv.CORPUS = "C02i" -> C02_Cls2(LAMBDA m : m.a = 64 /\ m.b >= 9)
               [] IOEnv.CORPUS = "C02j" -> C02_Cls2(LAMBDA m : m.a = 32)
